@@ -253,7 +253,8 @@ int main(int argc, char **argv) {
 			o << ' ' << n << ' ' << bps << ' ' << utils::nextPow2((n + stepBits - 1) / stepBits) << '\n';
 			runComb(rng, [&](Ctx &c) { UInt a = c.in(n); auto r = scl::priorityEncoderTree(a, false, bps); c.out(*r); c.out(valid(r)); });
 		} else if (prim == "petreereg") {
-			// registerStep = true: one register per tree level; a stream of inputs, one per clock cycle
+			// registerStep = true: one register per tree level; a stream of inputs, one per clock cycle (single bits in the short last
+			// chunk are the shape that exposed the unequal latencies fixed in b9353d8)
 			size_t n = genWidth(rng, round, 1, maxw); size_t bps = 1 + (round % 3);
 			size_t stepBits = 1ull << bps;
 			o << ' ' << n << ' ' << bps << ' ' << utils::nextPow2((n + stepBits - 1) / stepBits) << '\n';
@@ -350,7 +351,7 @@ int main(int argc, char **argv) {
 			bool mn = prim == "mins";
 			runComb(rng, [&](Ctx &c) { SInt a = (SInt) c.in(w), b = (SInt) c.in(w); c.out(mn ? scl::min(a, b) : scl::max(a, b)); });
 		} else if (prim == "bpt") {
-			// widths >= 32 are part of "every operand width" (the generator rejects them, see the model)
+			// widths >= 32 are part of "every operand width" (the generator threw for them before 7605865: keep exercising them)
 			size_t w = (round % 8 == 7) ? 32 + rng.below(std::max<size_t>(maxw, 40) - 31) : genWidth(rng, round - round / 8, 0, std::min<size_t>(maxw, 31));
 			o << ' ' << w << '\n';
 			runComb(rng, [&](Ctx &c) { UInt a = c.in(w); c.out(scl::biggestPowerOfTwo(a)); });
